@@ -223,6 +223,9 @@ class FnTranslator:
             return B('(' + j.join(v.e for v in vals) + ')', const=c)
         if isinstance(e, ast.IfExp):
             c, a, b = self.expr(e.test, env), self.expr(e.body, env), self.expr(e.orelse, env)
+            if isinstance(c, B) and c.const is not None:   # statically decided test (e.g. `x is not None` of a specialised parameter): the chosen arm, of any shape
+                self.folded.append(ast.unparse(e.test) + ' = ' + str(c.const))
+                return a if c.const else b
             if not isinstance(c, B) or not same_shape(a, b) or not isinstance(a, (S, B)): raise Refuse('conditional expression')
             return type(a)(f'(if {c.e} then {a.e} else {b.e})')
         if isinstance(e, (ast.Tuple, ast.List)):
